@@ -51,6 +51,10 @@ pub fn item_str(id: u32) -> String {
         0 if id == 0 => String::new(),
         1 => format!("ключ-{id}"),
         2 => format!("k{id}\u{1F600}"),
+        // embedded NUL, and a string longer than any one-byte or two-byte length prefix could describe
+        3 if id % 7 == 3 => format!("nul\0{id}\0"),
+        4 if id == 4 => format!("{}-{id}", "long".repeat(17_000)),
+        4 if id % 13 == 4 => format!("{}-{id}", "long".repeat(80)),
         _ => format!("item{id}"),
     }
 }
